@@ -4,6 +4,7 @@ import (
 	"crypto/ed25519"
 	"math/rand"
 	"sort"
+	"strings"
 
 	"verif/harness/internal/opb"
 	"verif/harness/internal/proto"
@@ -196,7 +197,25 @@ type docIntent struct {
 	keyList, svcList []interface{}
 	// an opaque document spells a member it has nothing for as an empty list
 	emptyLists bool
+	// further members of the document, under names that need escaping as JSON-pointer tokens
+	extras M
 }
+
+// withExtras gives the document further members (builder level only: the Sidetree client takes keys,
+// services and also-known-as)
+func (d *docIntent) withExtras(r *rand.Rand) {
+	if r.Intn(3) != 0 {
+		return
+	}
+	d.extras = M{}
+	for _, name := range []string{"a/b", "m~n", "~1", "plain"} {
+		if r.Intn(2) == 0 {
+			d.extras[name] = pick(r, []interface{}{"v", 1, M{"t": 1}, []interface{}{"x"}, nil})
+		}
+	}
+}
+
+var c08TokenEscaper = strings.NewReplacer("~", "~0", "/", "~1")
 
 func drawDoc(r *rand.Rand) *docIntent {
 	d := &docIntent{keys: map[string]M{}, services: map[string]M{}}
@@ -243,6 +262,9 @@ func (d *docIntent) docJSON() M {
 	if len(d.aka) > 0 {
 		m["alsoKnownAs"] = strsI(d.aka)
 	}
+	for k, v := range d.extras {
+		m[k] = v
+	}
 	return m
 }
 
@@ -257,6 +279,19 @@ func (d *docIntent) patches() []interface{} {
 	}
 	if len(d.svcList) > 0 {
 		ps = append(ps, M{"action": "add-services", "services": d.svcList})
+	}
+	if len(d.extras) > 0 {
+		// every further member in one ietf-json-patch, by name
+		names := make([]string, 0, len(d.extras))
+		for k := range d.extras {
+			names = append(names, k)
+		}
+		sort.Strings(names)
+		var ops []interface{}
+		for _, k := range names {
+			ops = append(ops, M{"op": "add", "path": "/" + c08TokenEscaper.Replace(k), "value": d.extras[k]})
+		}
+		ps = append(ps, M{"action": "ietf-json-patch", "patches": ops})
 	}
 	return ps
 }
@@ -277,6 +312,9 @@ func (s *c08State) tn() (int, int) {
 func (s *c08State) stepCreate(via string) M {
 	r := s.r
 	d := drawDoc(r)
+	if via == "builder" {
+		d.withExtras(r)
+	}
 	s.upd, s.rec = opb.NewKey(r, randKT(r)), opb.NewKey(r, randKT(r))
 	var ao interface{}
 	if r.Intn(3) == 0 {
@@ -456,6 +494,9 @@ func (s *c08State) stepUpdate(via string) M {
 func (s *c08State) stepRecover(via string) M {
 	r := s.r
 	d := drawDoc(r)
+	if via == "builder" {
+		d.withExtras(r)
+	}
 	signer := s.rec
 	nextU, nextR := opb.NewKey(r, randKT(r)), opb.NewKey(r, randKT(r))
 	headers := headersFor(r, signer)
